@@ -16,6 +16,7 @@ LABWARE = {
     "p32": ("plate", 3, 2),
     "p83": ("plate", 8, 3),
     "t32": ("trough", 3, 2),
+    "g42": ("gtrough", 4, 2),  # a trough declared as Labware(rows=1, virtual_rows=4)
 }
 # ints are tip numbers, Tip members compare like their bit value: Tip.T3 == 4, and (Tip.T4, 5) is ascending by tip
 # number but descending by raw value
@@ -30,6 +31,8 @@ def wells_of(lw):
 
 def build(lw, init=500.0):
     kind, R, C = LABWARE[lw]
+    if kind == "gtrough":
+        return rt.Labware("L", 1, C, min_volume=0, max_volume=50000, initial_volumes=[[init * 10] * C], virtual_rows=R), Geo("L", "trough", R, C, 0, 50000)
     if kind == "plate":
         return rt.Labware("L", R, C, min_volume=0, max_volume=5000, initial_volumes=init), Geo("L", "plate", R, C, 0, 5000)
     return rt.Trough("L", R, C, min_volume=0, max_volume=50000, initial_volumes=[init * 10] * C), Geo("L", "trough", R, C, 0, 50000)
